@@ -32,7 +32,8 @@ PROP = dict(
                "slicing-by-8 CRC of Go assumed equal to the byte-wise table update (differential-tested); CIDs opaque (getters do not verify content).",
     design_ref="5 (C14)",
     trusted=["model C14_Frames.v of tooling/data-frames.go (hand-written; follows the code with fixes/C14-cyclic-next-links.diff applied)",
-             "C14_Hash.v: CRC64-ISO / FNV-1a re-implemented in Gallina, differential-tested against hash/crc64 and hash/fnv on every run",
+             "C14_Hash.v: CRC64-ISO / FNV-1a re-implemented in Gallina, differential-tested against hash/crc64 and hash/fnv on every run; "
+             "which polynomial / fnv variant / order the repository uses is a generated fact (gen/c14.go -> coq/Generated/ConstsC14.v)",
              "zstd, protobuf and bincode codecs used only to observe payloads through accum/storage"] + COMMON_TRUSTED,
     assumptions=["sort.Slice returns a sorted permutation", "CIDs are opaque keys: a getter may return any frame for a CID",
                  "payloads carry the checksum and frame count for the fault statements"],
